@@ -50,14 +50,24 @@ ASSUMPTIONS = [
     "make trace_chains raise ValueError in its label lookups `motl.df.loc[motl.df.index[k], 'subtomo_id']`; permuted, reversed, gapped and "
     "string-label indexes are handled and are generated)",
     "site = (x+shift_x, y+shift_y, z+shift_z) of the respective list; distance = Euclidean norm in float64; tolerance 1e-9 on the recorded value",
-    "bounds: exact ties are JUDGED - when both sites of a pair and both bounds lie on the 1/8 lattice (|value| < 2**20) d^2, min^2, max^2 are exact "
-    "in float64 and the interval is decided on the squares: d == min_distance is outside (exclusive lower bound: such a link is a link_range "
-    "violation), d == max_distance is inside (such a link is allowed, not demanded); only INEXACT near-ties (|d - bound| <= 1e-9 for a pair that "
-    "is not on the lattice; generator: 1e-6) are regenerated / counted out of domain; ties between candidates are never excluded",
+    "bounds are decided, not avoided: (a) pairs whose two sites and both bounds lie on the 1/8 lattice (|value| < 2**20) are decided exactly on the "
+    "squares: d == min_distance is outside (exclusive lower bound, incl. d == 0 with min_distance == 0: an entry site exactly ON an exit site must "
+    "not be linked), d == max_distance is inside (allowed, not demanded); (b) every other pair is decided by comparing the float64 distance with the "
+    "bound, down to a relative margin of 1e-12 (classes bound_slivers*: nearest candidate at max*(1+d), max*(1-d), min*(1-d), min*(1+d), "
+    "d = 1e-12 .. 1e-6); only inputs with an off-lattice candidate within float64 round-off of a bound (|d - b| < 1e-13*b), where a squared-radius "
+    "test and a sqrt may legitimately disagree, are out of domain; generators of classes that do not aim at the bounds keep 1e-6 away from them; "
+    "ties between candidates are never excluded (class same_chain_exact_tie* plants exactly equal suffix/prefix distances on one chain)",
+    "the property does not demand that an admissible candidate IS linked: candidates planted just inside the interval are counted in "
+    "observed.sliver_admissible_*_linked, not judged",
     "measured on class lattice_ties: sklearn's KD-tree returns integer-offset distances exactly (3-4-5 -> 5.0), pairs exactly at max ARE linked by "
     "cryoCAT and recorded exactly, pairs exactly at min never are",
     "subtomo_id presentations: 1..n, unsorted non-contiguous, tomogram*100000+n and 17000000+n (consecutive, in row order or shuffled over the rows; "
     "float or int64 columns; no EM-file form above 2**24), cycled deterministically over the variants of every class",
+    "particle counts 60, 59, 58, 2**k-1 / 2**k / 2**k+1 (k = 3..5) and 39/40/41 (KD-tree leaf size) in ONE tomogram for every second variant of the "
+    "cluster / forest / suitor classes; exact duplicate particles (same entry and exit site, other id) in every third variant of the cluster classes; "
+    "tomogram ids 1..299, adjacent just above 1e5 and adjacent above 2**24; ids additionally 2**24+n, 2**31+n, 2**53-70+n; the pandas index of the "
+    "two Motl lists differs in 7 of 8 index presentations (range/permuted/gaps/reversed/string labels, cycled); in-place histories: the caller's own "
+    "DataFrame / Motl / EM file is overwritten between the first and second and again before the third call",
     "the value recorded on the LAST member of a chain is not constrained by the property (cryoCAT leaves stale values there after a cut) "
     "and is not judged; object numbers need not be contiguous",
     "the false side of `if cl_max > 1` in trace_chains is unreachable (after a successful suffix join every order number of the new chain is "
@@ -69,7 +79,7 @@ ASSUMPTIONS = [
 CLASSES = ["random_cluster", "late_suitors", "candidate_forest", "line_mid_start", "prefix_cut", "prefix_reject", "prefix_first", "heads_compete", "suffix_reject_fork",
            "suffix_after_cut", "both_sides_nocut", "both_sides_cut", "both_sides_reject", "bend_back_after_cut", "tail_cut", "tail_cut_after_join", "tail_cut_with_join", "same_target_single",
            "same_chain_bridge", "closed_ring", "min_distance_shell", "tomo_overlap", "odd_ids_index", "zero_displacement", "tiny", "lattice_ties", "second_call_moved_exits",
-           "bound_slivers", "same_chain_exact_tie"]
+           "bound_slivers", "same_chain_exact_tie", "bound_slivers_2", "same_chain_exact_tie_2"]
 
 CLAUSES = ["partition", "tomogram", "orders", "link_range", "link_recorded"]
 ID_KINDS = ["seq", "big100k", "shuffled_gaps", "big17M", "big2p24", "big2p31", "near2p53"]
@@ -831,7 +841,7 @@ def _lattice_case(rng, v):
     """integer lattice (scaled by a power of two), integral min_distance > 0 and max_distance; stations plant candidate entries
     EXACTLY at min_distance (axis-aligned and Pythagorean offsets: must not be linked), exactly at max_distance (may be linked), just
     beyond max, inside min and in between, around an exit; plus a random lattice cloud full of ties.  -> E, X, tomo_idx, D, m, tags"""
-    m = int([5, 3, 10, 13, 6, 9, 7, 15][v % 8])
+    m = int([5, 0, 3, 10, 0, 13, 6, 9, 0, 7, 15][v % 11])          # 0: the candidate 'exactly at min' is an entry site ON the exit site
     D = m + int(rng.integers(2, 13))
     nst = int(rng.integers(1, 5))
     ntomo = int(rng.integers(1, 4))
@@ -889,7 +899,7 @@ def _lattice_case(rng, v):
         tcl = int(rng.integers(0, ntomo))
         for q in pts:
             E.append(org + q)
-            X.append(org + q + rng.integers(-m, m + 1, 3) * int(rng.random() < 0.8))
+            X.append(org + q + rng.integers(-max(m, 2), max(m, 2) + 1, 3) * int(rng.random() < 0.8))
             T.append(tcl)
         tags.append("cloud%d" % len(pts))
     E, X, T = np.array(E, dtype=float), np.array(X, dtype=float), np.array(T, dtype=int)
@@ -920,18 +930,18 @@ def _sliver_case(rng, v):
     for st in range(nst):
         kind = SLIVER_KINDS[(v * 3 + st) % len(SLIVER_KINDS)]
         if m == 0.0 and kind.startswith("min"):
-            kind = "max+" if st % 2 else "max-"
+            kind = "zero"                         # min_distance 0: an entry site exactly ON the exit site (distance 0 is outside (0, max])
         dl = SLIVERS[(v + st * 5 + st // 6) % len(SLIVERS)]
         org = np.array([st * 14.0 * D, float(rng.integers(-3, 4)) * D, float(rng.integers(-3, 4)) * D]) + rng.uniform(50, 400, 3).round(int(rng.integers(0, 4)))
         a1, a2 = (int(q) for q in rng.choice(3, 2, replace=False))
         x_s = org
         e_s = x_s - (3.0 * D + 1.0) * axes[a1] * float(rng.choice([-1, 1]))
         u = axes[int(rng.integers(0, 3))] * float(rng.choice([-1, 1])) if rng.random() < 0.5 else _rand_unit(rng)
-        dist = {"max+": D * (1 + dl), "max-": D * (1 - dl), "min-": m * (1 - dl), "min+": m * (1 + dl)}[kind]
+        dist = {"max+": D * (1 + dl), "max-": D * (1 - dl), "min-": m * (1 - dl), "min+": m * (1 + dl), "zero": 0.0}[kind]
         block = [(e_s, x_s)]
         e_c = x_s + dist * u
         cands = [(e_c, e_c + 4.0 * D * axes[a2] * float(rng.choice([-1, 1])))]
-        if kind == "min-" and rng.random() < 0.5:
+        if kind in ("min-", "zero") and rng.random() < 0.5:
             w = _perp(rng, u)
             e_f = x_s + (m + (D - m) * float(rng.uniform(0.2, 0.9))) * w          # an admissible, farther candidate
             cands.append((e_f, e_f + 5.0 * D * w))
@@ -1026,7 +1036,7 @@ def _tie_gadget(rng, D, m, kind, h, q, t):
 
 def _tie_case(rng, v):
     """2..4 tie gadgets (random lattice symmetry, integer translation, tomograms round robin), optionally lattice stations, power-of-two scale"""
-    D = int(rng.integers(9, 21))
+    D = int(rng.integers(12, 24))
     m = int([0, 2, 0, 1, 3, 0][v % 6])
     ng = int(rng.integers(2, 5))
     ntomo = int(rng.integers(1, 4))
@@ -1046,6 +1056,13 @@ def _tie_case(rng, v):
         for e_, x_ in zip(got[0] @ M.T + off, got[1] @ M.T + off):
             E.append(e_); X.append(x_); T.append(g % ntomo)
         tags.append("tie-%s/h%dq%dt%d" % (kind, h, q, t))
+    if m == 0:
+        # a lone pair whose exit/entry sites coincide (distance 0 with min_distance 0: must stay unlinked), both row orders
+        p0 = np.array([-5 * D, 13 * D, -9 * D])
+        pair = [(p0 - np.array([3 * D, 0, 0]), p0), (p0, p0 + np.array([0, 3 * D + 1, 0]))]
+        for e_, x_ in (pair if v % 2 else pair[::-1]):
+            E.append(e_.astype(float)); X.append(x_.astype(float)); T.append(0)
+        tags.append("coincident-pair")
     nl = int(rng.integers(0, 5))
     for k in range(nl):
         p0 = np.array([-(k + 2) * 9 * D, int(rng.integers(-3, 4)) * 7 * D, 11 * D])
@@ -1080,11 +1097,11 @@ def gen(ctx, i, cls):
         lat, plants = None, None
         if cls == "lattice_ties":
             lat = _lattice_case(rng, v)
-        elif cls == "bound_slivers":
-            sl = _sliver_case(rng, v)
+        elif cls in ("bound_slivers", "bound_slivers_2"):
+            sl = _sliver_case(rng, v if cls == "bound_slivers" else v + 5)
             lat, plants = sl[:6], sl[6]
-        elif cls == "same_chain_exact_tie":
-            lat = _tie_case(rng, v)
+        elif cls in ("same_chain_exact_tie", "same_chain_exact_tie_2"):
+            lat = _tie_case(rng, v if cls == "same_chain_exact_tie" else v + 3)
             if lat is None:
                 continue
         # block-boundary particle counts (2**k - 1, 2**k, 2**k + 1, KD-tree leaf size 40 +- 1, the largest count of the quantifier) in ONE tomogram
@@ -1120,6 +1137,8 @@ def gen(ctx, i, cls):
             ntomo = len(parts)
         elif cls in ("random_cluster", "zero_displacement"):
             designed = False
+            ndup = int(rng.integers(1, 4)) if v % 3 == 1 else 0     # exact duplicates: particles with identical entry and exit sites, other ids
+            budget = max(2, budget - ndup)
             if cls == "zero_displacement" and rng.random() < 0.5:
                 D, m = float(rng.choice([10000.0, 500.0])), 0.0
             left = min(60, max(2, budget))
@@ -1128,6 +1147,11 @@ def gen(ctx, i, cls):
                 nn = max(1, min(nn, left - (ntomo - 1 - t)))
                 sc = Scene(rng, D, m)
                 rows, tag = g_cluster(sc, v, nn, zero_disp=(cls == "zero_displacement"))
+                if ndup and t == 0:
+                    for q in rng.integers(0, nn, ndup):
+                        rows.append(sc.raw(sc.E[int(q)].copy(), sc.X[int(q)].copy()))
+                    rows = [rows[int(q)] for q in rng.permutation(len(rows))]
+                    tag += "+dup%d" % ndup
                 parts.append((np.array(sc.E), np.array(sc.X), rows, tag))
                 left -= nn
                 if left <= 0:
@@ -1236,22 +1260,22 @@ def gen(ctx, i, cls):
                 "int_min": bool(m == 0.0 and rng.random() < 0.3)}
         if pres["form"] in ("em", "em_df") and (pres["ids"] in ("big17M", "big2p24", "big2p31", "near2p53") or pres["tomo_ids"] == "adjacent_2p24"):
             pres["form"] = "motl" if rng.random() < 0.5 else "df"      # numbers above 2**24 are not float32-exact: no EM-file presentation
+        if pres["form"] in ("em", "em_df") and cls.startswith("bound_slivers"):
+            pres["form"] = "motl" if v % 2 else "df"                   # float32 files cannot hold a 1e-12 .. 1e-7 sliver
         if pres["form"] in ("em", "em_df"):
             pres["int_ids"] = False
         de, dx = _tables(rng, E, X, tomo_idx, pres)
         Et = {"sub": de["subtomo_id"].to_numpy(float), "tomo": de["tomo_id"].to_numpy(float), "pos": gens.positions(de), "n": len(de)}
         Xt = {"sub": dx["subtomo_id"].to_numpy(float), "tomo": dx["tomo_id"].to_numpy(float), "pos": gens.positions(dx), "n": len(dx)}
-        if not orc.boundary_clear(Et, Xt, m, D, None if cls == "bound_slivers" else 1e-6):
+        if not orc.boundary_clear(Et, Xt, m, D, None if cls.startswith("bound_slivers") else 1e-6):
             continue
-        if m == 0.0 and bool((orc.sq_matrix(Et, Xt) == 0).any()):
-            continue                     # exit site exactly ON another entry site with min_distance 0: reported finding, kept out pending the lead's ruling
         cand = orc.candidates(Et, Xt, m, D)
         if plants is not None:
             dmx = orc.link_matrix(Et, Xt)
             okp = True
             for (a_, b_, kd, dl) in plants:
                 dd = float(dmx[a_, b_])
-                okp &= {"max+": dd > D, "max-": m < dd <= D, "min-": dd <= m, "min+": m < dd <= D}[kd]
+                okp &= {"max+": dd > D, "max-": m < dd <= D, "min-": dd <= m, "min+": m < dd <= D, "zero": dd == 0.0}[kd]
             if not okp:
                 continue
         if designed:
@@ -1276,9 +1300,7 @@ def gen(ctx, i, cls):
             else:
                 t2 = _second_exit(rng, de, Et["pos"], Et["tomo"], D, kind2, pres, is_em=pres["form"] in ("em", "em_df"))
                 E2, X2 = {"sub": t2["subtomo_id"].to_numpy(float), "tomo": t2["tomo_id"].to_numpy(float), "pos": gens.positions(t2), "n": len(t2)}, Xt
-            if not orc.boundary_clear(E2, X2, m, D, None if cls == "bound_slivers" else 1e-6):
-                continue
-            if m == 0.0 and bool((orc.sq_matrix(E2, X2) == 0).any()):
+            if not orc.boundary_clear(E2, X2, m, D, None if cls.startswith("bound_slivers") else 1e-6):
                 continue
             cand2 = orc.candidates(E2, X2, m, D)
             second = {"kind": kind2, "which": which, "inplace": inplace, "table": t2, "E": E2, "X": X2, "cand": cand2, "n_cand": int(cand2.sum())}
@@ -1417,10 +1439,10 @@ def run_case(ctx, case):
                         nxt[s1] = s2
                 sub = case["E"]["sub"]
                 for (a_, b_, kd, dl) in case["plants"]:
-                    _count(ctx, "sliver_planted_%s" % {"max+": "beyond_max", "max-": "below_max", "min-": "inside_min", "min+": "above_min"}[kd])
+                    _count(ctx, "sliver_planted_%s" % {"max+": "beyond_max", "max-": "below_max", "min-": "inside_min", "min+": "above_min", "zero": "coincident_min0"}[kd])
                     if kd in ("max-", "min+") and nxt.get(sub[a_]) == sub[b_]:
                         _count(ctx, "sliver_admissible_%s_linked" % {"max-": "below_max", "min+": "above_min"}[kd])
-            if out is not None and case["cls"] == "same_chain_exact_tie":
+            if out is not None and case["cls"].startswith("same_chain_exact_tie"):
                 _count(ctx, "exact_tie_gadgets_equal", sum(1 for t_ in case["summary"]["gadgets"] if t_.startswith("tie-equal")))
                 _count(ctx, "exact_tie_gadgets_unequal_controls", sum(1 for t_ in case["summary"]["gadgets"] if t_.startswith("tie-") and not t_.startswith("tie-equal")))
         sec = case.get("second")
